@@ -143,6 +143,15 @@ class SymDate:
     def date(self):
         return self
 
+    def to_pydatetime(self):
+        return self
+
+    def isoweekday(self):
+        return self.weekday() + 1
+
+    def toordinal(self):
+        return self.n + 719163
+
     def strftime(self, fmt):
         if fmt == "%A":
             return DAYNAMES[self.weekday()]
@@ -327,6 +336,23 @@ def bday_offset(wd: int, n: int) -> int:
 class PandasShim:
     def __getattr__(self, name):
         return getattr(_pd, name)
+
+    @staticmethod
+    def Timestamp(*a, **k):
+        year = k.get("year", a[0] if a else None)
+        if isinstance(year, SymInt):
+            month = k.get("month", a[1] if len(a) > 1 else None)
+            day = k.get("day", a[2] if len(a) > 2 else None)
+            if len(a) > 3 or set(k) - {"year", "month", "day"}:
+                raise Unsupported("intraday pd.Timestamp on a symbolic year")
+            return SymDate(year, month, day)
+        return _pd.Timestamp(*a, **k)
+
+    @staticmethod
+    def to_datetime(x, *a, **k):
+        if isinstance(x, SymDate):
+            return x
+        return _pd.to_datetime(x, *a, **k)
 
     @staticmethod
     def date_range(start=None, end=None, periods=None, freq=None, **kw):
